@@ -132,7 +132,16 @@ impl<'tcx, 'b> Cx<'tcx, 'b> {
             si.to_bits_unchecked()
           ),
           None => {
-            let bytes = const_bytes(self.tcx, &c.const_);
+            // promoted / unevaluated constants (e.g. `&Enum::Variant` used by a derived `==`): evaluate them so
+            // that the pointee bytes can be exported
+            let evaluated = match c.const_ {
+              mir::Const::Unevaluated(..) => match c.const_.eval(self.tcx, self.env, c.span) {
+                Ok(v) => Some(mir::Const::Val(v, ty)),
+                Err(_) => None,
+              },
+              _ => None,
+            };
+            let bytes = const_bytes(self.tcx, evaluated.as_ref().unwrap_or(&c.const_));
             let bj = match bytes {
               Some(b) => format!(",\"bytes\":[{}]", b.iter().map(|x| x.to_string()).collect::<Vec<_>>().join(",")),
               None => String::new(),
